@@ -752,7 +752,35 @@ def r07_9(ctx):
         ctx.met('R07.9', B, 'no evaluator buffer takes the coefficient dtype', None, 'results are float (or promoted by arithmetic)', where='pyiga/bspline.py')
 
 
+
+def r07_10(ctx):
+    """A UserFunction hands the coordinates to the user's callable in the order it receives them, on every evaluation route:
+    eval(*x) and pointwise_eval(points) -> eval(*points).  (The zyx reversal belongs to the spline evaluators, whose knot vectors are stored
+    last-axis-first; a callable f(x, y) has no such storage order.)"""
+    f = ctx.prog.maybe_func('pyiga.geometry.UserFunction.pointwise_eval')
+    if f is None:
+        ctx.undecided('R07.10', 'pyiga.geometry.UserFunction.pointwise_eval', 'definition', None, 'not found')
+        return
+    rets = guards.returns_of(f.node)
+    rev = []
+    for n in ast.walk(f.node):
+        if isinstance(n, ast.Subscript) and isinstance(n.value, ast.Name) and n.value.id == 'points':
+            t = src(n.slice).replace(' ', '')
+            if '-1-' in t or t.startswith('-') or '::-1' in t or ('sdim' in t and '-' in t):
+                rev.append(n)
+        if isinstance(n, ast.Call) and call_name(n) == 'reversed' and n.args and 'points' in src(n.args[0]):
+            rev.append(n)
+    if rev:
+        ctx.violated('R07.10', f.qual, src(rev[0])[:70], rev[0],
+                     'the scattered-point route reverses the coordinates before calling the user function: f is called as f(z, y, x) while '
+                     'eval / grid_eval call it as f(x, y, z) -- pointwise evaluation and ComposedFunction(F, geo) disagree with single-point evaluation')
+    else:
+        direct = any(isinstance(r.value, ast.Call) and any(isinstance(a, ast.Starred) and src(a.value) == 'points' for a in r.value.args) for r in rets)
+        ctx.decide('R07.10', f.qual, 'coordinates passed on as given', True if direct else None, f.node)
+
+
 def run(ctx):
+    r07_10(ctx)
     r07_9(ctx)
     r07_8(ctx)
     r07_1(ctx)
